@@ -210,7 +210,48 @@ let validate_trace (lines : string list) (inherited : int) : string =
              | Some s -> Printf.sprintf "OK events=%d Q=%d T=%d C=%d J=%d L=%d procs=%d" !nev (iz (q s)) (iz s.t) (iz s.c) (iz s.j) (iz s.l) (List.length s.procs)
              | None -> "EMPTY")
 
+(* lock / job protocol traces (Sched/Locks.v) *)
+let validate_locks (lines : string list) : string =
+  let st = ref empty in
+  let nev = ref 0 in
+  let err = ref None in
+  let starts = Hashtbl.create 64 in      (* (runid, fid) -> number of job starts *)
+  let zi = z_of_int in
+  let step k l e =
+    match lapply e !st with
+    | Some s' -> st := s'; incr nev
+    | None -> if !err = None then err := Some (Printf.sprintf "REJECT line %d (%s)" k l) in
+  List.iteri (fun k l ->
+    if !err = None then
+    match String.split_on_char ' ' l with
+    | "lck" :: pid :: runid :: kind :: fid :: _ ->
+        let p = zi (int_of_string pid) and f = zi (int_of_string fid) in
+        (* fid 0 is the broken-lock self test, fids from LOG_LOCK_MAGIC up are (shared) log locks *)
+        if int_of_string fid = 0 || int_of_string fid >= 0x10000000 then () else
+        (match kind with
+         | "acquired" -> step k l (LAcquired (p, f))
+         | "busy" -> step k l (LBusy (p, f))
+         | "release" -> step k l (LRelease (p, f))
+         | "forced" -> step k l (LForced (p, f))
+         | "job_start" ->
+             let key = (runid, fid) in
+             Hashtbl.replace starts key (1 + (try Hashtbl.find starts key with Not_found -> 0));
+             step k l (LJobStart (p, f))
+         | "job_done" -> step k l (LJobDone (p, f))
+         | _ -> ())
+    | "tok" :: pid :: "exit" :: _ -> step k l (LProcExit (zi (int_of_string pid)))
+    | _ -> ()) lines;
+  let dup = Hashtbl.fold (fun (r, f) n acc -> if n > 1 then (Printf.sprintf "%s:%s:%d" r f n) :: acc else acc) starts [] in
+  match !err with
+  | Some e -> e
+  | None -> Printf.sprintf "OK events=%d running_left=%d held_left=%d multi_start=%s" !nev
+              (List.length !st.running) (List.length !st.holder) (if dup = [] then "-" else String.concat "," dup)
+
 let () =
+  if Array.length Sys.argv > 2 && Sys.argv.(1) = "lcktrace" then begin
+    let ic = open_in Sys.argv.(2) in
+    let rec rd acc = match input_line ic with l -> rd (l :: acc) | exception End_of_file -> List.rev acc in
+    print_endline (validate_locks (rd [])); exit 0 end;
   if Array.length Sys.argv > 2 && Sys.argv.(1) = "toktrace" then begin
     let inherited = if Array.length Sys.argv > 3 then int_of_string Sys.argv.(3) else -1 in
     let ic = open_in Sys.argv.(2) in
